@@ -23,7 +23,7 @@ Definition run_layout (x : sx) : sx :=
   end.
 
 (** ---- requests *)
-From Xfrm Require Import XfrmModel.
+From Xfrm Require Import XfrmModel PolicyModel.
 Open Scope Z_scope.
 
 Definition sx_ip (x : sx) : option ip :=
@@ -135,6 +135,16 @@ Definition run_call_with (sx_result : list (option bytes) * outcome -> sx) (x : 
                                                  seq pid replies)
               | _, _, _, _, _, _, _ => bad_input
               end
+          | SxL [SxS "controller_init"; SxL cs] =>
+              match opt_all (map sx_conn cs) with
+              | Some cs => sx_result (run_requests (PolicyModel.controller_init_requests cs) seq pid replies)
+              | None => bad_input
+              end
+          | SxL [SxS "controller_close"; SxL cs] =>
+              match opt_all (map sx_conn cs) with
+              | Some cs => sx_result (run_requests (PolicyModel.controller_close_requests cs) seq pid replies)
+              | None => bad_input
+              end
           | SxL [SxS "delete_child_sa"; k; ma; pa] =>
               match sx_child k, sx_ip ma, sx_ip pa with
               | Some k, Some ma, Some pa => sx_result (run_requests (delete_child_sa k ma pa) seq pid replies)
@@ -208,3 +218,43 @@ Definition sx_result_fp (r : list (option bytes) * outcome) : sx :=
 
 Definition run_call (x : sx) : sx := run_call_with sx_result x.
 Definition run_call_fp (x : sx) : sx := run_call_with sx_result_fp x.
+
+(** ---- C15: the abstract kernel after start-up from a prior state that holds [n0] foreign policies and [m0] SAs
+    (their content is irrelevant to the model: FLUSH removes them).  input: L [L conns]; output:
+    L [number of SAs; L [fingerprint-free policy summaries]] or S "NetlinkError".
+    summary of a policy = L [dir; index; sel.family; sel.sport; sel.dport; sel.proto; prefixlen_s; prefixlen_d] *)
+Definition fv_Z (o : option fv) : Z := match o with Some (VInt z) => z | _ => (-1)%Z end.
+
+Definition policy_summary (r : request) : sx :=
+  let f := fun p => SxZ (fv_Z (lookup (rq_payload r) p)) in
+  SxL [f "dir"; f "index"; f "sel.family"; f "sel.sport"; f "sel.dport"; f "sel.proto"; f "sel.prefixlen_s";
+       f "sel.prefixlen_d"].
+
+Definition run_startup (x : sx) : sx :=
+  match x with
+  | SxL [SxL cs] =>
+      match opt_all (map sx_conn cs) with
+      | Some cs =>
+          match controller_init cs (mk_kstate [flush_sas; flush_sas] [flush_policies]) with
+          | Ok st => SxL [sx_nat (List.length (sad st)); SxL (map policy_summary (spd st))]
+          | Raise e => SxS (exn_name e)
+          end
+      | None => bad_input
+      end
+  | _ => bad_input
+  end.
+
+(** IkeSa.process_acquire's lookup.  input: L [L [entry index...]; policy index of the ACQUIRE]; output: the position
+    of the entry that is negotiated, or -1 when the ACQUIRE is ignored *)
+Fixpoint index_of (l : list Z) (i : Z) (n : Z) : Z :=
+  match l with [] => (-1)%Z | x :: r => if protect_match x i then n else index_of r i (n + 1) end.
+
+Definition run_acquire_lookup (x : sx) : sx :=
+  match x with
+  | SxL [SxL idx; SxZ kindex] =>
+      match opt_all (map get_Z idx) with
+      | Some idx => SxL [SxZ (acquire_index kindex); SxZ (index_of idx (acquire_index kindex) 0)]
+      | None => bad_input
+      end
+  | _ => bad_input
+  end.
